@@ -187,7 +187,7 @@ func (v *View) ExtendSlots(root common.Root, to common.Slot) {
 
 // SetHead makes `tip` the node's head: every validator's latest message points at it and the
 // node adopts the tip state's justified/finalized checkpoints (which prunes the fork choice).
-func (v *View) SetHead(tip *Block) error {
+func (v *View) SetHead(tip *Block, prune bool) error {
 	v.Tip = tip
 	_, cj, fin := tip.Post.Justified()
 	j, f := v.cpOf(cj), v.cpOf(fin)
@@ -199,10 +199,14 @@ func (v *View) SetHead(tip *Block) error {
 	if err != nil {
 		return err
 	}
-	if err := v.fc.UpdateJustified(context.Background(), tip.Root, j, f, func() ([]forkchoice.Gwei, error) {
-		return gweis(js.sc.Balances()), nil
-	}); err != nil {
-		return fmt.Errorf("UpdateJustified: %w", err)
+	// prune=false models a chain that has adopted the new finalized checkpoint but whose fork
+	// choice has not pruned yet: branches outside the finalized subtree are still known to it.
+	if prune {
+		if err := v.fc.UpdateJustified(context.Background(), tip.Root, j, f, func() ([]forkchoice.Gwei, error) {
+			return gweis(js.sc.Balances()), nil
+		}); err != nil {
+			return fmt.Errorf("UpdateJustified: %w", err)
+		}
 	}
 	v.Jus, v.Fin = j, f
 	n := tip.Post.ValidatorCount()
